@@ -207,7 +207,7 @@ def degenerate(c):
     n = len(c["lhs"])
     for i in range(n):
         parts = [c["lhs"][i]] + [c[k][i if len(c[k]) == n else 0] for k in ("rhs", "lb", "ub") if k in c]
-        if any(E.has_op(e, "off") for e in parts) and E.lost_offsets(parts):
+        if E.lost_offsets(parts, signals_too=True):      # a shifted operand cancelled, or the whole relation collapsed to a constant
             return True
     return False
 
